@@ -78,6 +78,19 @@ def module_inventory (tree):
           visit(getattr(s, f, []) or [], prefix)
         for h in getattr(s, 'handlers', []): visit(h.body, prefix)
   visit(tree.body, '')
+  # module-level and class-level assigned names (reference vocabulary of constants)
+  def assigned (body):
+    names = []
+    for s in body:
+      if isinstance(s, ast.Assign):
+        for t in s.targets:
+          for x in ast.walk(t):
+            if isinstance(x, ast.Name): names.append(x.id)
+      elif isinstance(s, ast.AnnAssign) and isinstance(s.target, ast.Name): names.append(s.target.id)
+    return sorted(set(names))
+  out['<module>'] = assigned(tree.body)
+  for s in tree.body:
+    if isinstance(s, ast.ClassDef): out['<class %s>' % s.name] = assigned(s.body)
   return out
 
 # ---------------------------------------------------------------- N1 desugar
@@ -760,7 +773,37 @@ def expand_temps (fn, known_locals):
       if uloops[:len(dloops)] != dloops: continue           # use must be inside every loop that encloses the def
       ok = True
       flow = _between_cfg(fn, ds, us)
-      if flow is not None:
+      alias = isinstance(e, ast.Attribute) and _simple(e) and not any(isinstance(x, (ast.Subscript, ast.Call)) for x in ast.walk(e))
+      if flow is not None and alias:
+        # the temporary is another name for the object an attribute holds: mutating that object (through either name) does
+        # not matter, only re-binding the attribute does - directly, or possibly inside a call on the same receiver
+        etxt = _base_text(e); root = etxt.split('.')[0]
+        for kind, a_ in flow:
+          if kind == 'stmt':
+            if isinstance(a_, ast.Raise): continue
+            tg_ = []
+            if isinstance(a_, ast.Assign): tg_ = a_.targets
+            elif isinstance(a_, (ast.AugAssign, ast.AnnAssign)): tg_ = [a_.target]
+            elif isinstance(a_, ast.Delete): tg_ = a_.targets
+            for t_ in tg_:
+              for tx_ in ([t_] if not isinstance(t_, (ast.Tuple, ast.List)) else t_.elts):
+                if isinstance(tx_, ast.Attribute) and (ast.unparse(tx_) == etxt or etxt.startswith(ast.unparse(tx_) + '.')): ok = False
+                if isinstance(tx_, ast.Name) and tx_.id in rnames: ok = False
+            hx = _header_exprs(a_)
+          elif kind == 'for':
+            sn, sh = _stmt_effects(a_)
+            if sn & rnames: ok = False
+            hx = []
+          else: hx = [a_]
+          for h_ in hx:
+            for c_ in ast.walk(h_):
+              if isinstance(c_, ast.Call) and isinstance(c_.func, ast.Attribute):
+                rcv = _base_text(c_.func.value)
+                if rcv.split('.')[0] == root and rcv != etxt and not rcv.startswith(etxt + '.') and not _impure_call_in([c_]) is False:
+                  if _impure_call_in([c_]): ok = False
+          if not ok: break
+        if not ok: continue
+      elif flow is not None:
         # what can execute on some control-flow path from the definition to the use
         for kind, a_ in flow:
           if kind == 'stmt':
@@ -815,6 +858,10 @@ def _replace_name (stmt, holder_expr, name_node, e):
         if isinstance(it, ast.withitem) and it.context_expr is holder_expr: it.context_expr = R().visit(holder_expr); return
 
 def _drop_dead (fn):
+  # safety net: a definition is dropped only if no read of its name is left anywhere in the function
+  left = set(x.id for x in ast.walk(fn) if isinstance(x, ast.Name) and isinstance(x.ctx, ast.Load))
+  for st_ in ast.walk(fn):
+    if getattr(st_, '_pxa_dead', False) and isinstance(st_, ast.Assign) and isinstance(st_.targets[0], ast.Name) and st_.targets[0].id in left: st_._pxa_dead = False
   def walk (body):
     out = []
     for s in body:
@@ -936,6 +983,65 @@ def _chain (first, rest):
   """first ; rest  where first may contain `return` (kept as return: control simply leaves the function)"""
   return first + rest
 
+# ---------------------------------------------------------------- N5 new literal constants
+def _literal (e, depth=0):
+  """is e a literal constant expression (numbers, strings, bytes, tuples of such, + - * | << and concatenation of literals)?"""
+  if depth > 6: return False
+  if isinstance(e, ast.Constant): return isinstance(e.value, (int, float, str, bytes, bool, type(None)))
+  if isinstance(e, ast.Tuple): return all(_literal(x, depth + 1) for x in e.elts)
+  if isinstance(e, ast.BinOp) and isinstance(e.op, (ast.Add, ast.Sub, ast.Mult, ast.BitOr, ast.BitAnd, ast.LShift, ast.RShift, ast.FloorDiv)): return _literal(e.left, depth + 1) and _literal(e.right, depth + 1)
+  if isinstance(e, ast.UnaryOp) and isinstance(e.op, (ast.USub, ast.Invert)): return _literal(e.operand, depth + 1)
+  return False
+
+def inline_new_constants (tree, inv):
+  """a module- or class-level name that is not in the reference vocabulary and is bound once to a literal is replaced by
+  that literal wherever it is read (named constants introduced for magic numbers / format strings)"""
+  n = 0
+  known_mod = set(inv.get('<module>', ()))
+  consts = {}
+  counts = {}
+  for s in tree.body:
+    if isinstance(s, ast.Assign) and len(s.targets) == 1 and isinstance(s.targets[0], ast.Name):
+      counts[s.targets[0].id] = counts.get(s.targets[0].id, 0) + 1
+      if s.targets[0].id not in known_mod and _literal(s.value): consts[s.targets[0].id] = s.value
+  consts = dict((k, v) for k, v in consts.items() if counts.get(k) == 1)
+  cconsts = {}
+  for c in tree.body:
+    if isinstance(c, ast.ClassDef):
+      known_c = set(inv.get('<class %s>' % c.name, ())) if ('<class %s>' % c.name) in inv else None
+      if known_c is None: continue
+      for s in c.body:
+        if isinstance(s, ast.Assign) and len(s.targets) == 1 and isinstance(s.targets[0], ast.Name) and s.targets[0].id not in known_c and _literal(s.value):
+          cconsts[(c.name, s.targets[0].id)] = s.value
+  if not consts and not cconsts: return 0
+  class R(ast.NodeTransformer):
+    def __init__ (self, cls): self.cls = cls; self.shadow = [set()]
+    def visit_FunctionDef (self, node):
+      self.shadow.append(self.shadow[-1] | local_names(node))
+      self.generic_visit(node); self.shadow.pop(); return node
+    visit_AsyncFunctionDef = visit_FunctionDef
+    def visit_Name (self, node):
+      nonlocal n
+      if isinstance(node.ctx, ast.Load) and node.id in consts and node.id not in self.shadow[-1]:
+        n += 1; return ast.copy_location(copy.deepcopy(consts[node.id]), node)
+      return node
+    def visit_Attribute (self, node):
+      nonlocal n
+      self.generic_visit(node)
+      if isinstance(node.ctx, ast.Load) and isinstance(node.value, ast.Name):
+        owner = node.value.id
+        for (cn, nm), v in cconsts.items():
+          if nm == node.attr and (owner == cn or (owner in ('self', 'cls') and self.cls == cn)):
+            n += 1; return ast.copy_location(copy.deepcopy(v), node)
+      return node
+  for s in tree.body:
+    if isinstance(s, ast.ClassDef):
+      r = R(s.name)
+      for b in s.body:
+        if isinstance(b, FUNC): r.visit(b)
+    elif isinstance(s, FUNC): R(None).visit(s)
+  return n
+
 # ---------------------------------------------------------------- driver
 def normalize_module (tree, modname, stats=None):
   inv = inventory().get(modname)
@@ -949,6 +1055,7 @@ def normalize_module (tree, modname, stats=None):
   if inv is not None and module_inventory(tree) == inv:
     inv = None          # nothing new in this module: analysed as written
   if inv is not None:
+    info['constants'] = inline_new_constants(tree, inv)
     il = Inliner(tree, inv)
     il.run(); info['inlined'] = il.inlined
     # a new helper all of whose uses in this module were inlined is no longer a unit of its own
